@@ -338,6 +338,34 @@ type result struct {
 	byThread string
 	cache    starlark.Value
 	r        *run
+	probes   map[int]keyProbe // one more sequential once(key, …) per key after the run, through the public builtin only
+}
+
+// what one more call once(key, callable returning 999) on the same cache does after the run
+type keyProbe struct {
+	invoked bool   // its callable ran: the key was absent
+	val     int    // the value it returned
+	err     string // it returned an error (a later call must never inherit an earlier failure)
+}
+
+func probeKeys(c config, cache starlark.Value) map[int]keyProbe {
+	ps := map[int]keyProbe{}
+	for _, k := range c.keys() {
+		kp := keyProbe{}
+		probe := starlark.NewBuiltin("probe", func(th *starlark.Thread, b *starlark.Builtin, args starlark.Tuple, kwargs []starlark.Tuple) (starlark.Value, error) {
+			kp.invoked = true
+			return starlark.MakeInt(999), nil
+		})
+		g, err := snippetProg.Init(&starlark.Thread{Name: "probe"}, starlark.StringDict{
+			"cache": cache, "KEY": starlark.String(fmt.Sprintf("k%d", k)), "probe": probe})
+		if err != nil {
+			kp.err = err.Error()
+		} else {
+			kp.val, _ = starlark.AsInt32(g["v"])
+		}
+		ps[k] = kp
+	}
+	return ps
 }
 
 func newCache() starlark.Value {
@@ -425,7 +453,17 @@ func runControlled(c config, choose chooser) *result {
 }
 
 // runFree lets the callers run truly concurrently; the hook only logs.
-func runFree(c config) *result {
+func runFree(c config) *result { return runFreeT(c, 60*time.Second) }
+
+// runNoHook: free-running with the hook disabled altogether - nothing of the verifPoint protocol is relied upon
+func runNoHook(c config, timeout time.Duration) *result {
+	saved := dawn.VerifHook
+	dawn.VerifHook = nil
+	defer func() { dawn.VerifHook = saved }()
+	return runFreeT(c, timeout)
+}
+
+func runFreeT(c config, timeout time.Duration) *result {
 	r := newRun(false)
 	cur = r
 	cache := newCache()
@@ -446,8 +484,13 @@ func runFree(c config) *result {
 	res := &result{cache: cache, r: r, outcome: "done"}
 	select {
 	case <-done:
-	case <-time.After(60 * time.Second):
-		res.outcome = "HANG"
+	case <-time.After(timeout):
+		// late: a hang, unless the machine starved us - give the callers one more period
+		select {
+		case <-done:
+		case <-time.After(timeout):
+			res.outcome = "HANG"
+		}
 	}
 	cur = nil
 	res.finish(c)
@@ -469,17 +512,15 @@ func (res *result) finish(c config) {
 	if res.outcome != "done" {
 		return
 	}
-	keys, vals := dawn.VerifCacheEntries(res.cache)
-	ent := map[int]int{}
-	for i, k := range keys {
-		n, _ := strconv.Atoi(strings.TrimPrefix(k, "k"))
-		v, _ := starlark.AsInt32(vals[i])
-		ent[n] = v
-	}
+	// the cache's content is observed through the builtin itself (no access to the representation): a later call
+	// that does not invoke its callable returns what is cached
+	res.probes = probeKeys(c, res.cache)
 	var e, ok, fl, rs, rt []string
 	for _, k := range c.keys() {
-		if v, has := ent[k]; has {
-			e = append(e, fmt.Sprintf("%d:%d", k, v))
+		if kp := res.probes[k]; kp.err != "" {
+			e = append(e, fmt.Sprintf("%d:E", k))
+		} else if !kp.invoked {
+			e = append(e, fmt.Sprintf("%d:%d", k, kp.val))
 		}
 		ok = append(ok, fmt.Sprintf("%d:%d", k, len(r.okCalls[k])))
 		fl = append(fl, fmt.Sprintf("%d:%d", k, r.failCalls[k]))
@@ -520,39 +561,45 @@ func violation(kind string, c config, res *result, detail string, mode string) {
 	in := map[string]any{"progs": c.String(), "mode": mode, "schedule": res.choices}
 	b, _ := json.Marshal(map[string]any{"kind": kind, "detail": detail, "trace": strings.Join(res.trace, ","), "input": in})
 	fmt.Fprintf(out, "V\t%s\n", b)
+	out.Flush()
 }
 
 func judge(c config, res *result, mode string) {
 	stats["judged_runs"]++
 	if res.outcome != "done" {
+		if mode == "sched" {
+			// the controller lost track of the goroutines. Is it the code that hangs, or the hook protocol that no longer
+			// matches the code? Run the same callers without any hook: if they finish, the controller derailed — that is a
+			// broken correspondence (reported by the check), not a failing input.
+			hung := false
+			for i := 0; i < 20 && !hung; i++ {
+				if nh := runNoHook(c, 10*time.Second); nh.outcome != "done" {
+					hung = true
+				} else {
+					judge(c, nh, "nohook")
+				}
+			}
+			if !hung {
+				stats["controller_derailed"]++
+				return
+			}
+			mode = "nohook"
+		}
 		violation("hang", c, res, res.outcome+": callers did not finish", mode)
 		return
 	}
 	r := res.r
-	keys, vals := dawn.VerifCacheEntries(res.cache)
-	ent := map[int]int{}
-	for i, k := range keys {
-		n, _ := strconv.Atoi(strings.TrimPrefix(k, "k"))
-		v, _ := starlark.AsInt32(vals[i])
-		ent[n] = v
-	}
 	for _, k := range c.keys() {
 		if len(r.okCalls[k]) > 1 {
 			violation("computed-twice", c, res, fmt.Sprintf("key %d: %d successful invocations %v", k, len(r.okCalls[k]), r.okCalls[k]), mode)
 		}
-		if len(r.okCalls[k]) == 0 {
-			if v, has := ent[k]; has {
-				violation("failure-cached", c, res, fmt.Sprintf("key %d holds %d although no callable succeeded", k, v), mode)
-			}
-		} else if v, has := ent[k]; !has || v != r.okCalls[k][0] {
-			violation("result-not-cached", c, res, fmt.Sprintf("key %d: computed %v, cache has %v (%v)", k, r.okCalls[k], v, has), mode)
-		}
 	}
+	// per thread: has an earlier call of this thread for the key failed? (then "a later call may retry" applies to it)
 	for _, x := range r.rets {
 		if x.err {
 			stats["error_returns"]++
 			if !x.invoked {
-				violation("error-without-failing-call", c, res, fmt.Sprintf("thread %d key %d", x.tid, x.key), mode)
+				violation("error-without-failing-call", c, res, fmt.Sprintf("thread %d key %d: once returned an error although its own callable was not invoked (an earlier failure was cached)", x.tid, x.key), mode)
 			}
 			continue
 		}
@@ -564,29 +611,22 @@ func judge(c config, res *result, mode string) {
 			violation("different-value", c, res, fmt.Sprintf("thread %d got %d for key %d; successful invocations: %v", x.tid, x.val, x.key, r.okCalls[x.key]), mode)
 		}
 	}
-	// retry / reuse: one more sequential call per key on the same cache
+	// retry / reuse: the one more sequential call per key made after the run
 	for _, k := range c.keys() {
-		invoked := false
-		probe := starlark.NewBuiltin("probe", func(th *starlark.Thread, b *starlark.Builtin, args starlark.Tuple, kwargs []starlark.Tuple) (starlark.Value, error) {
-			invoked = true
-			return starlark.MakeInt(999), nil
-		})
-		g, err := snippetProg.Init(&starlark.Thread{Name: "retry"}, starlark.StringDict{
-			"cache": res.cache, "KEY": starlark.String(fmt.Sprintf("k%d", k)), "probe": probe})
-		if err != nil {
-			violation("retry-error", c, res, err.Error(), mode)
+		kp := res.probes[k]
+		if kp.err != "" {
+			violation("later-call-fails", c, res, fmt.Sprintf("key %d: a later once with a succeeding callable returned an error: %s", k, kp.err), mode)
 			continue
 		}
-		v, _ := starlark.AsInt32(g["v"])
 		if len(r.okCalls[k]) == 0 {
 			stats["retries_after_only_failures"]++
-			if !invoked || v != 999 {
-				violation("retry-impossible", c, res, fmt.Sprintf("key %d: every invocation failed, yet a later call did not invoke its callable (got %d)", k, v), mode)
+			if !kp.invoked || kp.val != 999 {
+				violation("retry-impossible", c, res, fmt.Sprintf("key %d: every invocation failed, yet a later call did not invoke its callable (got %d)", k, kp.val), mode)
 			}
 		} else {
 			stats["reuse_probes"]++
-			if invoked || v != r.okCalls[k][0] {
-				violation("recomputed-later", c, res, fmt.Sprintf("key %d: later call invoked=%v got %d want %d", k, invoked, v, r.okCalls[k][0]), mode)
+			if kp.invoked || kp.val != r.okCalls[k][0] {
+				violation("recomputed-later", c, res, fmt.Sprintf("key %d: later call invoked=%v got %d want %d", k, kp.invoked, kp.val, r.okCalls[k][0]), mode)
 			}
 		}
 	}
@@ -721,7 +761,12 @@ func main() {
 			fmt.Fprintln(os.Stderr, err)
 			os.Exit(2)
 		}
-		if in.Mode == "free" {
+		if in.Mode == "nohook" {
+			for i := 0; i < 2000 && nviol == 0; i++ {
+				judge(c, runNoHook(c, 10*time.Second), "nohook")
+			}
+			fmt.Fprintf(out, "# nohook replay: %d runs judged, %d violations\n", stats["judged_runs"], nviol)
+		} else if in.Mode == "free" {
 			for i := 0; i < 2000 && nviol == 0; i++ {
 				res := runFree(c)
 				judge(c, res, "free")
@@ -745,6 +790,32 @@ func main() {
 
 	thorough := *tier == "thorough"
 	r := &rng{*seed}
+
+	// 0. hook-free judge: the real builtin with VerifHook unset, nothing but the public API is relied upon, so this
+	// stream survives any refactoring of cache.go. (i) every sequential call sequence up to length 4 over 2 keys with
+	// ok/fail callables, (ii) free-running concurrent callers.
+	tn := time.Now()
+	seqs := progsOfLen(2, 4)
+	sort.SliceStable(seqs, func(i, j int) bool { return len(seqs[i]) < len(seqs[j]) }) // shortest failing sequence first
+	for _, p := range seqs {
+		c := copyConfig(p)
+		res := runNoHook(c, 10*time.Second)
+		stats["nohook_sequential"]++
+		judge(c, res, "nohook")
+	}
+	nNoHook := 3000
+	if thorough {
+		nNoHook = 60000
+	}
+	for i := 0; i < nNoHook; i++ {
+		c := randomConfig(r, 8, 4, 3)
+		res := runNoHook(c, 10*time.Second)
+		stats["nohook_concurrent"]++
+		judge(c, res, "nohook")
+	}
+	stats["nohook_ms"] = int(time.Since(tn).Milliseconds())
+	out.Flush()
+
 	t0 := time.Now()
 	// controlled mode runs one goroutine at a time: a single P makes the hand-offs cheap
 	ncpu := runtime.GOMAXPROCS(1)
@@ -763,12 +834,17 @@ func main() {
 	}
 	// callers that make two calls (fail then retry, hit after compute …): all programs for <=2 callers
 	two := progsOfLen(2, 2)
-	for _, a := range two {
+	for ai, a := range two {
 		if len(a) == 2 {
 			cfgs = append(cfgs, copyConfig(a))
 		}
-		for _, b := range two {
+		for bi, b := range two {
 			if len(a) == 2 || len(b) == 2 {
+				// quick tier: of the pairs in which BOTH callers make two calls (the expensive ones) every second one,
+				// alternating with the seed; thorough: all
+				if !thorough && len(a) == 2 && len(b) == 2 && (ai+bi+int(*seed))%2 == 1 {
+					continue
+				}
 				cfgs = append(cfgs, copyConfig(a, b))
 			}
 		}
@@ -785,6 +861,10 @@ func main() {
 		}
 	}
 	for ci, c := range cfgs {
+		if stats["controller_derailed"] >= 3 {
+			stats["configs_skipped_controller_derailed"]++
+			continue
+		}
 		before := stats["schedules_exhaustive"]
 		_, complete, finals := exhaustiveSampled(c, maxPer, traceEvery, ci)
 		if complete {
@@ -812,7 +892,7 @@ func main() {
 	if thorough {
 		nRand = 40000
 	}
-	for i := 0; i < nRand; i++ {
+	for i := 0; i < nRand && stats["controller_derailed"] < 3; i++ {
 		c := randomConfig(r, 4, 3, 3)
 		var res *result
 		if i%2 == 0 {
